@@ -355,7 +355,10 @@ Fixpoint ops2_fresh (own : N -> okey) (g : gstate) (dls : list (list bool)) (ops
 (* what is visible of an event at level 2 *)
 Inductive vis :=
  | VDial (s : nat) (ok : bool) | VSwp (s : nat) | VSnd (s : nat) (rows : list N) | VDn (s : nat) (ok : bool)
- | VAns (h : nat) (ok : bool).
+ | VAns (h : nat) (ok : bool)
+ | VReq (h i : nat) (k : N)                 (* doPush of sub-request i of push h called Request for the k-th time (seen by a
+                                               wrapper around the service handed to the registry): the retry count *)
+ | VRes (h i : nat) (k : N) (ok : bool).    (* ... and the promise that call returned was completed with ok: the promise store *)
 
 Fixpoint insertN (x : N) (l : list N) : list N :=
   match l with [] => [x] | y :: t => if N.leb x y then x :: l else y :: insertN x t end.
@@ -368,7 +371,17 @@ Definition vis_of (e : event) : list vis :=
   | ESend s k b => [VSnd s (sortN (map fst (nth (keycol k) b [])))]
   | EDone s ok => [VDn s ok]
   | EAnswer h _ ok => [VAns h ok]
+  | EReq _ (PSub h i k) _ _ _ _ => [VReq h i k]
+  | EResolve (PSub h i k) _ _ ok => [VRes h i k ok]
   | _ => []
+  end.
+(* the model's own events: a sub-request without rows is not identifiable for the observer (it recognises requests by
+   the content of their rows), so its Request / completion are not compared *)
+Definition vis_of_model (e : event) : list vis :=
+  match e with
+  | EReq _ (PSub _ _ _) _ r _ _ => if no_cells r then [] else vis_of e
+  | EResolve (PSub _ _ _) _ r _ => if no_cells r then [] else vis_of e
+  | _ => vis_of e
   end.
 Fixpoint listN_eqb (a b : list N) : bool :=
   match a, b with
@@ -383,6 +396,8 @@ Definition vis_eqb (a b : vis) : bool :=
   | VSnd s r, VSnd s' r' => Nat.eqb s s' && listN_eqb r r'
   | VDn s ok, VDn s' ok' => Nat.eqb s s' && Bool.eqb ok ok'
   | VAns h ok, VAns h' ok' => Nat.eqb h h' && Bool.eqb ok ok'
+  | VReq h i k, VReq h' i' k' => Nat.eqb h h' && Nat.eqb i i' && N.eqb k k'
+  | VRes h i k ok, VRes h' i' k' ok' => Nat.eqb h h' && Nat.eqb i i' && N.eqb k k' && Bool.eqb ok ok'
   | _, _ => false
   end.
 Fixpoint remove_vis (x : vis) (l : list vis) : option (list vis) :=
@@ -398,7 +413,7 @@ Fixpoint vis_perm (a b : list vis) : bool :=
 Fixpoint obs2_eqb (a b : list (list event)) : bool :=
   match a, b with
   | [], [] => true
-  | x :: a', y :: b' => vis_perm (flat_map vis_of x) (flat_map vis_of y) && obs2_eqb a' b'
+  | x :: a', y :: b' => vis_perm (flat_map vis_of_model x) (flat_map vis_of y) && obs2_eqb a' b'
   | _, _ => false
   end.
 
